@@ -55,7 +55,7 @@ ASSUMPTIONS = [
     "every branch that carries a split has at least one point before it; the document's first "
     "branch is non-empty",
 ]
-REQUIRED = ["documents_beyond_2_pow_20_characters", "conversions_with_custom_types_and_names", "unchanged_files_converted_again", "conversions_started_inside_a_conversion", "documents_converted", "rows_compared", "nested_splits", "empty_first_alt",
+REQUIRED = ["documents_beyond_2_pow_20_characters", "conversions_with_custom_types_and_names", "parsed_documents_converted_twice", "unchanged_files_converted_again", "conversions_started_inside_a_conversion", "documents_converted", "rows_compared", "nested_splits", "empty_first_alt",
             "empty_later_alt", "empty_split", "points_after_split", "documents_with_repeated_points",
             "path_converted_again_after_rewrite", "with_comments", "with_colours",
             "deep_documents", "long_branches", "densely_commented_long_documents",
@@ -526,6 +526,18 @@ def check_doc(ctx, case, tmp):
             def from_ast(ast, **kw):
                 return NeurolucidaAscToSwc.from_ast(ast, types=ty, names=nm)
 
+        # (the caller's parsed document is read, not consumed: it converts the same way twice)
+        ast_ = Parser(io.StringIO(text)).parse()
+        for turn in ("first", "second"):
+            try:
+                t_ = NeurolucidaAscToSwc.from_ast(ast_)
+            except Exception as e:
+                return ctx.violation("other-implementer", f"from_ast, {turn} conversion of one parsed "
+                                                          f"document: {type(e).__name__}: "
+                                                          f"{str(e)[:100]}", case)
+            if compare(ctx, case, rows, t_, f"from_ast ({turn} conversion of one parsed document)"):
+                return
+        ctx.count("parsed_documents_converted_twice")
         try:
             direct = NeurolucidaAscToSwc.from_ast(Parser(io.StringIO(text)).parse(), types=ty,
                                                   names=nm)
